@@ -162,6 +162,17 @@ Theorem c02_maxconns_bound : forall n reqs ls s,
 Proof. exact t_maxconns_bound. Qed.
 Print Assumptions c02_maxconns_bound.
 
+(* The limiter's state belongs to the installed middleware, not to the request: a latch built per request lets in every
+   arrival whatever n, with ONE latch for all requests of the installation the arrival that finds n inside is turned away.
+   (Installed through Server.Use / WithMiddleware(ToMiddleware(..)) the guard is constructed once: Link.link_sk_tomiddleware.) *)
+Theorem c02_limiter_state_is_shared : forall n, 0 < n ->
+  (forall s, mstep n (MEnter 0) (minit 1) = Some s -> nth_error (ms_reqs s) 0 = Some MIn) /\
+  (exists s, mstep n (MEnter 0) (minit 1) = Some s) /\
+  (forall reqs ls s i s', mrun n ls (minit reqs) = Some s -> Z.of_nat (inside s) = n ->
+     mstep n (MEnter i) s = Some s' -> nth_error (ms_reqs s') i = Some MRejected).
+Proof. exact t_limiter_state_is_shared. Qed.
+Print Assumptions c02_limiter_state_is_shared.
+
 (* MaxBytes: ContentLength > n > 0 => the script the guards see is WriteHeader(413) alone, whatever the
    handler is (it is not reached), and the response is 413 with no body; otherwise the handler runs. *)
 Theorem c02_maxbytes_gate : forall recover rh0 n clen acts,
